@@ -7,7 +7,7 @@ from __future__ import annotations
 
 import itertools
 
-from env import refcks
+from env import core, refcks
 from env.e2e import E2EWorld
 from xmc import NPROC
 from xmc.engine import Violation, explore, explore_many
@@ -53,7 +53,7 @@ class C01World(E2EWorld):
                 if d["T"] == "FIN" and _success(d):
                     self._judge(st, "receiver", "Finished PDU", o.get("file_at_fin"), v)
         o = obs.get("S")
-        if o and (c["mode"] == "ack" or c["closure"]):
+        if o and (core.eff_mode(c) == "ack" or core.eff_closure(c)):
             for r in o.get("ind", []):
                 # at the sender the file status is hearsay; success = no error + data complete, file not reported discarded
                 if r["ind"] == "finished" and r["cond"] == "NO_ERROR" and r["deliv"] == "DATA_COMPLETE" and not r["fstat"].startswith("DISCARDED"):
@@ -119,6 +119,10 @@ def configs(tier):
         add(link="k", K=1, mode="ack", nak=nak, size=L + 1, ack_limit=2, nak_limit=2, kinds=("drop", "dup", "delay"), cancels=1)
     for closure in (False, True):
         add(link="k", K=1, mode="unack", closure=closure, size=L + 1, check_limit=2, kinds=("drop", "dup", "delay"), cancels=1)
+    # request-level mode / closure differing from the MIB defaults of the remote entity configuration
+    add(link="k", K=1, mode="unack", closure=False, req_closure=True, size=L + 1, check_limit=2, kinds=("drop", "dup", "delay", "flip", "reject"))
+    add(link="k", K=1, mode="unack", closure=False, req_mode="ack", size=L + 1, ack_limit=2, nak_limit=2, kinds=("drop", "dup", "delay", "flip", "reject"))
+    add(link="k", K=1, mode="ack", closure=False, req_mode="unack", req_closure=True, size=L + 1, check_limit=2, kinds=("drop", "dup", "delay", "flip", "reject"))
     # fault handler overrides: a limit fault that is ignored must not turn missing data into a reported success
     add(link="chaos", mode="ack", nak="def", size=L + 1, cks="null", ack_limit=1, nak_limit=1, kinds=(), faults_d={"NAK_LIMIT_REACHED": "ignore"})
     add(link="chaos", mode="unack", closure=True, size=L + 1, cks="crc32", check_limit=1, kinds=flips, faults_d={"CHECK_LIMIT_REACHED": "ignore"})
